@@ -10,9 +10,16 @@ type MainFinalizerPlanner struct {
 	IsMatrix bool
 	IsFinal  bool
 	Alias    string
+	// WITH clauses the stages of the plan share while one statement is built
+	Caches []**sql.With
 }
 
 func (m *MainFinalizerPlanner) Process(ctx *shared.PlannerContext) (sql.ISelect, error) {
+	// a plan may be executed again (live tail): the shared clauses belong to the execution that
+	// built them - they carry its aliases (numbered per context) and its time bounds
+	for _, c := range m.Caches {
+		*c = nil
+	}
 	req, err := m.Main.Process(ctx)
 	if err != nil {
 		return nil, err
